@@ -1,0 +1,36 @@
+//go:build verif
+
+package middleware
+
+// Contract file: comments only, parsed by /verif/cmd/govc (see /verif/DESIGN.md §2.2).
+// It contains no executable code; without the build tag it is not even compiled.
+
+// ---------------------------------------------------------------- negotiate.go
+
+//@ spec norm(o) := cutBefore(o, ";")
+
+//@ func normalizeOffer
+//@ ensures result == norm(orig)
+//@ assigns \nothing
+
+// wildOf: how a media range sv matches a (normalised) offer: 0 exact, 1 type/*, 2 */*, 9 no match
+//@ spec wildOf(off, sv) := sv == "*/*" ? 2 : (strings.HasSuffix(sv, "/*") ? (strings.HasPrefix(off, sv[:len(sv)-1]) ? 1 : 9) : (sv == off ? 0 : 9))
+//@ fun nmW(offers []string, specs []header.AcceptSpec, o int, s int) := wildOf(norm(offers[o]), specs[s].Value)
+//@ fun nmQ(specs []header.AcceptSpec, s int) := specs[s].Q
+//@ spec nmM(offers, specs, o, s) := nmQ(specs, s) != 0 && nmW(offers, specs, o, s) != 9
+//@ spec nmProcessed(specs, o, s, co, cs) := 0 <= o && 0 <= s && s < len(specs) && (o < co || (o == co && s < cs))
+//@ spec nmNotBetter(offers, specs, o, s, bQ, bW, bo) := nmQ(specs, s) < bQ || (nmQ(specs, s) == bQ && nmW(offers, specs, o, s) > bW) || (nmQ(specs, s) == bQ && nmW(offers, specs, o, s) == bW && bo <= o)
+//@ spec nmInv(offers, specs, dflt, co, cs, bQ, bW, bO) := (bW == 3 && bQ == -1 && bO == dflt && (forall o int, s int :: nmProcessed(specs, o, s, co, cs) ==> !nmM(offers, specs, o, s))) || (exists bo int, bs int @try(co, cs-1) @try(co-1, len(specs)-1) :: nmProcessed(specs, bo, bs, co, cs) && nmM(offers, specs, bo, bs) && nmW(offers, specs, bo, bs) == bW && nmQ(specs, bs) == bQ && bO == offers[bo] && (forall o int, s int :: nmProcessed(specs, o, s, co, cs) && nmM(offers, specs, o, s) ==> nmNotBetter(offers, specs, o, s, bQ, bW, bo)))
+
+//@ func NegotiateContentType
+//@ watch PA = call middleware/header.ParseAccept
+//@ requires r != nil
+//@ ensures calls(PA) == 1
+//@ ensures [C07:first] len(ret(PA,0,0)) == 0 ==> result == (len(offers) > 0 ? offers[0] : defaultOffer)
+//@ ensures [C07:none] len(ret(PA,0,0)) > 0 && (forall o int, s int :: 0 <= o && o < len(offers) && 0 <= s && s < len(ret(PA,0,0)) ==> !nmM(offers, ret(PA,0,0), o, s)) ==> result == defaultOffer
+//@ ensures [C07:best] len(ret(PA,0,0)) > 0 ==> exists bQ real, bW int @try(bestQ, bestWild) :: nmInv(offers, ret(PA,0,0), defaultOffer, len(offers), 0, bQ, bW, result)
+//@ loop 0 invariant calls(PA) == 1 && ret(PA,0,0) == specs
+//@ loop 0 invariant len(specs) == 0 ==> rangeindex == -1 && bestOffer == defaultOffer
+//@ loop 0 invariant nmInv(offers, specs, defaultOffer, rangeindex+1, 0, bestQ, bestWild, bestOffer)
+//@ loop 1 invariant calls(PA) == 1 && ret(PA,0,0) == specs && len(specs) > 0
+//@ loop 1 invariant nmInv(offers, specs, defaultOffer, outer(rangeindex)+1, rangeindex+1, bestQ, bestWild, bestOffer)
